@@ -272,9 +272,11 @@ std::string eval_inner(const Sx &q) {
             if (kind == "oct" && x < y) { c.k = "sum"; targets.push_back(c); c.k = "nsum"; targets.push_back(c); }
           }
       }
-      unsigned budget = targets.size() <= 6 ? targets.size() : 6;
+      // all targets when there are few (every constraint kind of the language is then probed after
+      // every step: e.g. the sum x+y after a join), a random dozen otherwise
+      unsigned budget = targets.size() <= 14 ? targets.size() : 12;
       for (unsigned t = 0; t < budget; t++) {
-        unsigned pick = targets.size() <= 6 ? t : qr.below(targets.size());
+        unsigned pick = targets.size() <= 14 ? t : qr.below(targets.size());
         Cst c = targets[pick];
         // the implementation's own interval-derived upper bound of the constrained term
         z_bound U = z_bound::plus_infinity();
@@ -470,6 +472,21 @@ std::string gen(Rng &r, const Args &a) {
   unsigned gadget_slot = r.below(NP);
   unsigned len = 5 + r.below(thorough ? 36 : 16);
   o << " (ops";
+  // "crossing boxes" template (1 run in 6, relational kinds): two boxes whose bounds on x and y
+  // cross, then their join: the least upper bound carries relational facts (x+y, x-y, ...) that
+  // neither operand states explicitly (the join must infer them from the bounds)
+  if (kind != "itv" && nv >= 2 && r.below(6) == 0) {
+    unsigned x = r.below(nv), y = (x + 1 + r.below(nv - 1)) % nv;
+    int64_t a = r.range(-4, 4) * g.scale, b = a + r.range(1, 5), c = r.range(-4, 4) * g.scale, d2 = c + r.range(1, 5);
+    bool lower = r.coin(), both = r.below(3) == 0;
+    auto bnd = [&](unsigned slot, unsigned v, int64_t val, bool lo) {
+      o << " (assume " << slot << " (" << (lo ? "lb" : "ub") << " v" << v << " " << (lo ? -val : val) << "))";
+    };
+    // slot 0: x <= a , y <= d2 ; slot 1: x <= b , y <= c      (a < b, c < d2: the bounds cross)
+    bnd(0, x, a, lower); bnd(0, y, d2, lower); bnd(1, x, b, lower); bnd(1, y, c, lower);
+    if (both) { bnd(0, x, a - r.range(0, 3), !lower); bnd(1, y, c - r.range(0, 3), !lower); }
+    o << " (join 2 0 1)";
+  }
   for (unsigned i = 0; i < len; i++) {
     unsigned d = r.below(NP);
     unsigned k = r.below(100);
